@@ -47,11 +47,14 @@ def run_shard_resilient(engine, shard, nshards, seed, tier, outdir, extra, timeo
     return r, incidents + [{"rc": r["rc"], "case": None, "stderr": "too many restarts", "fatal": True}]
 
 
-def vh_stage(engine, quick=4, thorough=16, extra=(), timeout_q=1500, timeout_t=7200, name=None, death_is_violation=True):
+def vh_stage(engine, quick=4, thorough=16, extra=(), timeout_q=1500, timeout_t=7200, name=None, death_is_violation=True, confirm_hangs=False, case_limit_s=None):
     def stage(ctx):
         from concurrent.futures import ThreadPoolExecutor
 
         n = thorough if ctx["thorough"] else quick
+        if case_limit_s is not None and "VH_CASE_LIMIT_S" not in os.environ:
+            D.ENV["VH_CASE_LIMIT_S"] = str(case_limit_s)
+            os.environ["VH_CASE_LIMIT_S"] = str(case_limit_s)
         outdir = os.path.join(ctx["outroot"], name or engine)
         os.makedirs(outdir, exist_ok=True)
         to = timeout_t if ctx["thorough"] else timeout_q
@@ -61,14 +64,36 @@ def vh_stage(engine, quick=4, thorough=16, extra=(), timeout_q=1500, timeout_t=7
         sums = []
         m_extra_viol = []
         m_incon = []
+        import stacksig
+
+        def replay_cmd(case):
+            return [D.VH, engine, "--replay-case"] + case.split("/")
+
+        case_limit = int(os.environ.get("VH_CASE_LIMIT_S", "90"))
+        confirmations = 0
         for r, incidents in results:
             for inc in incidents:
                 if inc.get("fatal"):
                     raise D.HarnessError(f"engine {engine} shard {r['shard']} died rc={inc['rc']} outside any case; stderr tail:\n{inc['stderr']}")
-                if inc["rc"] in (86, 87):
-                    m_incon.append({"kind": "watchdog_time" if inc["rc"] == 86 else "watchdog_memory", "case": inc["case"]})
+                env = dict(D.ENV)
+                if inc["rc"] == 86:
+                    if confirm_hangs and confirmations < 8:
+                        confirmations += 1
+                        # a wall-clock stop is never a verdict by itself: re-run the one case alone with a 10x budget
+                        factor = 10 if ctx["thorough"] else 5
+                        env["VH_CASE_LIMIT_S"] = str(case_limit * factor + 60)
+                        running, rc2 = stacksig.still_running_after(replay_cmd(inc["case"]), env, outdir, case_limit * factor)
+                        if running:
+                            sig, why = stacksig.hang_signature(replay_cmd(inc["case"]), env, outdir)
+                            m_extra_viol.append({"kind": "does_not_terminate", "engine": engine, "sig": sig, "case": inc["case"], "note": f"still running after {case_limit * factor}s alone; {why or ''}"})
+                            continue
+                    m_incon.append({"kind": "watchdog_time", "case": inc["case"]})
+                elif inc["rc"] == 87:
+                    m_incon.append({"kind": "watchdog_memory", "case": inc["case"]})
                 elif death_is_violation:
-                    m_extra_viol.append({"kind": "process_death", "engine": engine, "rc": inc["rc"], "case": inc["case"], "stderr": inc["stderr"][-300:]})
+                    env["VH_CASE_LIMIT_S"] = "600"
+                    sig, why = stacksig.crash_signature(replay_cmd(inc["case"]), env, outdir)
+                    m_extra_viol.append({"kind": "process_death", "engine": engine, "sig": sig, "rc": inc["rc"], "case": inc["case"], "stderr": inc["stderr"][-300:], "note": why})
                 else:
                     m_incon.append({"kind": "process_death", "case": inc["case"], "rc": inc["rc"]})
             p = os.path.join(outdir, f"{r['shard']}.summary.json")
@@ -201,6 +226,29 @@ register(
     assumptions=COMMON_ASSUME + ["reference interpreter as in C01", "integer literals whose bytes spell an operator keyword are not generated: classic reads atoms untyped by design"],
     min_nontrivial=50,
     needs=("bins",),
+)
+
+
+register(
+    "C14",
+    [vh_stage("c14", 16, 16, confirm_hangs=True, case_limit_s=20)],
+    "inputs: token-level (delete/duplicate/swap/replace by keyword or delimiter/insert/group delete) and byte-level (truncate at a random offset, bit flip, byte insertion, splice of two sources) mutants of generated programs in every dialect "
+    "and of the shipped sources under resources/tests (<= 4 KiB), token soup over the language's keywords and delimiters, random bytes, nesting <= 200; each input goes through every entry point: compile (library path, no-optimise path, CLI derivation), "
+    "assemble, disassemble v0/1/2, serialise, deserialise (raw and hex), brun-style run, stepping run, cldb stepping, preprocess (-E), dependency listing, unused-argument check, REPL line by line, and the in-process run/run -O/brun/opc/opd tools. "
+    "Oracle: result or error only (a panic is caught and is a violation; a dead shard process is a violation blamed on the input whose BEGIN has no END; a watchdog stop is inconclusive); modern compile errors must lie inside the text they name. "
+    "Distinct non-trivial = distinct input bytes that went through all entry points cleanly",
+    assumptions=["8 MiB thread stack (the CLI's main thread)", "REPL error locations are relative to the expression being entered and are not bounds-checked"],
+    min_nontrivial=200,
+)
+
+register(
+    "C15",
+    [vh_stage("c15", 4, 16)],
+    "the harness lays out random token trees itself (barewords, negative and large decimals, hex, both quote styles with escapes, #-operators, dotted tails, nested lists, random blanks, newlines and comments), so every token's span is known: "
+    "leaf location == token span exactly, list location within its parentheses, bytewise ParsePartialResult == parse_sexp (values and locations); reader errors on mutants lie within the text; a separate stratum feeds texts with #( structured lists for bytewise==whole. "
+    "Distinct non-trivial = distinct laid-out text whose every token and list was checked, plus distinct rejected mutants with an in-bounds location",
+    assumptions=["tab-free layouts"],
+    min_nontrivial=500,
 )
 
 
